@@ -155,6 +155,9 @@ def specEdges (io : Bool) (rows : List CRow) : List Edge := rows.flatMap (joinRo
 def preUniqueB (rows : List CRow) : Bool :=
   rows.all fun r => (rows.filter fun q => isPre q && q.cid == r.cid).length ≤ 1
 
+/-- both partners of the edge are known (neither end is `__OTHER__` / `None`) -/
+def knownBoth (e : Edge) : Bool := e.srcNode.isSome && e.tgtNode.isSome
+
 /-- Lean-side property checker, evaluated by the driver on the *implementation's* edge list. -/
 def checkEdges (io : Bool) (rows : List CRow) (es : List Edge) : Bool := es.isPerm (specEdges io rows)
 
@@ -266,6 +269,12 @@ def Groups.toMap : Groups → List (String × String)
 /-- `group_matrix(mat, row_groups, col_groups, drop_ungrouped, method)`; `none` = "returned `mat` untouched". -/
 def groupMatrix (m : Method) (rg cg : Groups) (drop : Bool) (M : LMat) : LMat :=
   if rg.isEmpty && cg.isEmpty then M else groupCore m rg.toMap cg.toMap drop M
+
+/-- the sub-matrix that survives `drop_ungrouped` -/
+def restrict (rg cg : List (String × String)) (drop : Bool) (M : LMat) : LMat :=
+  { rows := if rg.isEmpty then M.rows else keptRows rg drop M.rows
+    cols := if cg.isEmpty then M.cols else keptRows cg drop M.cols
+    val := M.val }
 
 /-- sum of all cells -/
 def total (M : LMat) : Rat := rsum (M.rows.map fun r => rsum (M.cols.map fun c => M.val r c))
